@@ -39,6 +39,7 @@ CONFIGS = {
     'int64': ['-O1', '-DUSE_FORCE_WIDEMUL_INT64=1', '-DECMULT_WINDOW_SIZE=2', '-DCOMB_BLOCKS=2', '-DCOMB_TEETH=5'],
     'verify': ['-O1', '-DVERIFY', '-DECMULT_WINDOW_SIZE=15', '-DCOMB_BLOCKS=43', '-DCOMB_TEETH=6'],
     'o2': ['-O2', '-DECMULT_WINDOW_SIZE=15', '-DCOMB_BLOCKS=43', '-DCOMB_TEETH=6'],
+    'o1plain': ['-O1', '-DECMULT_WINDOW_SIZE=15', '-DCOMB_BLOCKS=43', '-DCOMB_TEETH=6'],
     'tsan': ['-O1', '-fsanitize=thread', '-DECMULT_WINDOW_SIZE=15', '-DCOMB_BLOCKS=43', '-DCOMB_TEETH=6'],
 }
 SAN = ['-fsanitize=address,undefined', '-fno-sanitize-recover=all']
@@ -190,8 +191,16 @@ def run_impl(exe, lines, env_extra=None, wrapper=()):
             if len(out) >= len(ch) - pos:
                 out_all += out[:len(ch) - pos]
                 if p.returncode != 0:
-                    # e.g. leak report at exit
-                    out_all[-1] = out_all[-1] + ' EXIT-%d %s' % (p.returncode, summarize(p.stderr))
+                    # the process finished all lines but exited non-zero (leak report / valgrind error count):
+                    # attribute it to single lines by re-running them one by one
+                    blamed = False
+                    if len(ch) - pos > 1 and len(ch) - pos <= 64:
+                        for j in range(pos, len(ch)):
+                            q = subprocess.run(list(wrapper) + [exe], input=ch[j] + '\n', stdout=subprocess.PIPE, stderr=subprocess.PIPE, text=True, env=env)
+                            if q.returncode != 0:
+                                out_all[j] = out_all[j] + ' EXIT-%d %s' % (q.returncode, summarize(q.stderr)); blamed = True
+                    if not blamed:
+                        out_all[-1] = out_all[-1] + ' EXIT-%d %s' % (p.returncode, summarize(p.stderr))
                 pos = len(ch)
             else:
                 out_all += out
@@ -209,7 +218,7 @@ def run_impl(exe, lines, env_extra=None, wrapper=()):
 
 
 def summarize(stderr):
-    m = re.search(r'(ERROR: AddressSanitizer[^\n]*|runtime error:[^\n]*|ERROR: LeakSanitizer[^\n]*|SUMMARY:[^\n]*)', stderr)
+    m = re.search(r'(ERROR: AddressSanitizer[^\n]*|runtime error:[^\n]*|ERROR: LeakSanitizer[^\n]*|SUMMARY:[^\n]*|==\d+== [A-Z][^\n]*\n==\d+==    at [^\n]*)', stderr)
     s = m.group(1) if m else stderr.strip().split('\n')[-1] if stderr.strip() else ''
     return re.sub(r'\s+', '_', s)[:300]
 
@@ -349,12 +358,13 @@ def main():
     ctx = Ctx(tier, seed)
     cases = []
     model_ok = os.path.exists(os.path.join(LEAN, '.lake', 'build', 'bin', 'secpmodel'))
-    corpus_dir = os.path.join(ROOT, 'corpus', pid)
-    if os.path.isdir(corpus_dir):
-        for f in sorted(os.listdir(corpus_dir)):
-            for l in open(os.path.join(corpus_dir, f)):
-                l = l.strip()
-                if l and not l.startswith('//'): cases.append((l, ('corpus', f)))
+    for cp in [pid] + cfg.get('corpus_from', []):
+        corpus_dir = os.path.join(ROOT, 'corpus', cp)
+        if os.path.isdir(corpus_dir):
+            for f in sorted(os.listdir(corpus_dir)):
+                for l in open(os.path.join(corpus_dir, f)):
+                    l = l.strip()
+                    if l and not l.startswith('//') and not l.startswith('#'): cases.append((l, ('corpus', f)))
     for g in gens:
         mod = importlib.import_module('gen.' + g)
         cases += mod.generate(rng, tier, ctx)
@@ -379,6 +389,16 @@ def main():
         t1 = time.time()
         only = spec.get('only')
         sel = [k for k, l in enumerate(lines) if (not only) or l.split(' ', 1)[0] in only]
+        if spec.get('sample') and len(sel) > spec['sample']:
+            pref = spec.get('prefer', [])
+            first = [k for k in sel if tags[k][0] in pref or lines[k].split(' ', 1)[0] in pref]
+            rest = [k for k in sel if k not in set(first)]
+            import random as _r
+            rr = _r.Random(seed)
+            rr.shuffle(first); rr.shuffle(rest)
+            corp = [k for k in sel if tags[k][0] == 'corpus']          # corpus lines always run
+            first = [k for k in first if tags[k][0] != 'corpus']
+            sel = sorted((corp + first + rest)[:max(spec['sample'], len(corp))])
         sub_out = run_impl(exe, [lines[k] for k in sel], env_extra=spec.get('env'), wrapper=spec.get('wrapper', ()))
         iout = ['skip'] * len(lines)
         for k, o in zip(sel, sub_out): iout[k] = o
